@@ -549,6 +549,48 @@ def reuse_view(record):
     return record
 
 
+def observe_refilter(case: dict) -> dict:
+    """ RREFinder results holding the hits of the case (one gene each), saved under the old settings and regenerated under
+        the new ones; what the regenerated results hold, say when saved again, and add to a fresh record """
+    setup_process()
+    from antismash.common.hmmer import HmmerHit  # pylint: disable=import-outside-toplevel
+    from antismash.modules import rrefinder  # pylint: disable=import-outside-toplevel
+    from antismash.modules.rrefinder.rrefinder import RREFinderResults  # pylint: disable=import-outside-toplevel
+    from antismash.modules.rrefinder.rre_domain import RREDomain  # pylint: disable=import-outside-toplevel
+    hits = case["hits"]
+    layout = {"L": 330 * len(hits) + 60, "genes": [[30 + 330 * idx, 330 + 330 * idx, 1] for idx in range(len(hits))]}
+    event = {"id": case["id"], "op": "refilter", "hits": hits, "old": case["old"], "new": case["new"]}
+    try:
+        by_cds = {}
+        for idx, hit in enumerate(hits):
+            start = layout["genes"][idx][0]
+            by_cds[f"g{idx + 1}"] = [HmmerHit(location=f"[{start}:{start + 3 * hit['len']}](+)", label="RRE_type_A", locus_tag=f"g{idx + 1}",
+                                              domain="RRE_type_A", evalue=1e-5, score=hit["sc"] / 10, identifier="RREFam001.1",
+                                              description="RRE", protein_start=0, protein_end=hit["len"], translation="M" * hit["len"])]
+        update_config({"rre_cutoff": case["old"]["cut"] / 10, "rre_min_length": case["old"]["minlen"]})
+        record = gene_record(layout, 0)
+        first = RREFinderResults(record.id, case["old"]["cut"] / 10, case["old"]["minlen"], {1: sorted(by_cds)}, by_cds)
+        saved = asjson.loads(asjson.dumps(first.to_json()))
+        update_config({"rre_cutoff": case["new"]["cut"] / 10, "rre_min_length": case["new"]["minlen"]})
+        fresh = gene_record(layout, 0)
+        again = rrefinder.regenerate_previous_results(saved, fresh, get_config())
+        if again is None:
+            event["out"] = {"exc": "", "o": "discarded", "kept": [], "feats": [], "cut": 0, "minlen": 0}
+        else:
+            text = asjson.loads(asjson.dumps(again.to_json()))
+            again.add_to_record(fresh)
+            feats = sorted(int(dom.locus_tag[1:]) for dom in fresh.get_antismash_domains() if isinstance(dom, RREDomain))
+            event["out"] = {"exc": "", "o": "regenerated", "kept": sorted(int(name[1:]) for name in text["hits_by_cds"]),
+                            "feats": feats, "cut": int(round(text["bitscore_cutoff"] * 10)), "minlen": int(text["min_length"])}
+    except Exception as err:  # pylint: disable=broad-except
+        event["out"] = {"exc": exc_text(err), "o": "", "kept": [], "feats": [], "cut": 0, "minlen": 0}
+    return event
+
+
+def observe_refilter_many(cases: list) -> list:
+    return [observe_refilter(case) for case in cases]
+
+
 def replay(kind: str, case: dict, env: dict, hist: list, workdir: str, keep_texts: bool = False) -> list:
     """ hist: [{"a": action, "c": context in force after it}]. Returns the logged steps (see Reuse_Trace.tla); stops before
         an action that does not apply to the real state (e.g. Save after results were dropped). """
